@@ -38,8 +38,14 @@ def summarize (sm : Summarizer) (obs : List (Exts × Nat)) : Bool × Exts × Pay
         (acc.takeWhile (· < x)) ++ [x] ++ (acc.dropWhile (· < x))) []
     (decide (obs.length ≥ n), allExts, sorted)
 
-/-- stable sort by key (the contract of `sort_by_key`); core's `mergeSort` is stable -/
-def sortByKey (l : List (Seq × Exts × Nat)) : List (Seq × Exts × Nat) := l.mergeSort fun a b => decide (a.1 ≤ b.1)
+/-- insertion of `x` in front of the first element whose key is not smaller -/
+def insertByKey (x : Seq × Exts × Nat) : List (Seq × Exts × Nat) → List (Seq × Exts × Nat)
+  | [] => [x]
+  | y :: ys => if y.1 < x.1 then y :: insertByKey x ys else x :: y :: ys
+
+/-- stable sort by key (the contract of `sort_by_key`): elements are inserted from the last to the first, each in front
+    of the elements with an equal or larger key, so equal keys keep their input order -/
+def sortByKey (l : List (Seq × Exts × Nat)) : List (Seq × Exts × Nat) := l.foldr insertByKey []
 
 /-- maximal runs of equal keys (`group_by`) -/
 def groupRuns : List (Seq × Exts × Nat) → List (Seq × List (Exts × Nat))
@@ -49,10 +55,14 @@ def groupRuns : List (Seq × Exts × Nat) → List (Seq × List (Exts × Nat))
     | (k, obs) :: rest => if k == x.1 then (k, (x.2.1, x.2.2) :: obs) :: rest else (x.1, [(x.2.1, x.2.2)]) :: (k, obs) :: rest
     | [] => [(x.1, [(x.2.1, x.2.2)])]
 
-/-- the bucket ranges planned from the memory budget -/
-def bucketRanges (slices : Nat) : List (Nat × Nat) :=
-  let sz := 256 / slices + 1
-  (List.range 256).filterMap fun i => if i % sz = 0 then some (i, i + sz) else none
+/-- the loop `while start < 256 { push(start..start+sz); start += sz }` -/
+def rangesFrom (sz : Nat) (start : Nat) : List (Nat × Nat) :=
+  if h : start < 256 ∧ 0 < sz then (start, start + sz) :: rangesFrom sz (start + sz) else []
+termination_by 256 - start
+decreasing_by omega
+
+/-- the bucket ranges planned from the memory budget: `sz = 256 / slices + 1` -/
+def bucketRanges (slices : Nat) : List (Nat × Nat) := rangesFrom (256 / slices + 1) 0
 
 structure Result where
   table : List (Entry Payload)      -- valid k-mers in generation order (before the hash map reorders them)
